@@ -81,6 +81,7 @@ func PushCheck(sc sim.Scenario, h *sim.History) []Problem {
 		rets      []sim.Event
 		ctxEndSeq int // first event that ends its context (pushcancel / stop / peerclose / epilogue), -1 none
 		stopSeq   int // first event that ends the connection the push was made on, -1 none
+		bad       bool
 	}
 	calls := map[string]*call{}
 	keyOf := func(inside bool, k int) string { return fmt.Sprintf("%v/%d", inside, k) }
@@ -113,6 +114,7 @@ func PushCheck(sc sim.Scenario, h *sim.History) []Problem {
 			c.kind, c.pushSeq, c.pushT = e.Method, e.Seq, e.T
 			if e.Step < len(sc.Steps) {
 				c.deadline = sc.Steps[e.Step].D
+				c.bad = sc.Steps[e.Step].Out == "badparams"
 			}
 		case "enter":
 			if e.Method == "cbgate" || e.Method == "notegate" {
@@ -269,6 +271,16 @@ func PushCheck(sc sim.Scenario, h *sim.History) []Problem {
 		if !allow {
 			if flag != "unsupported" {
 				add("C09/pushed-without-allowpush", "%s returned %q (%s) although AllowPush is off", name, flag, ret.Err)
+			}
+			continue
+		}
+		if c.bad {
+			// parameters that cannot be marshalled: an error, nothing transmitted
+			if len(c.reqs) != 0 {
+				add("C09/refused-push-transmitted", "%s has parameters that cannot be marshalled, yet %d request(s) went out", name, len(c.reqs))
+			}
+			if flag == "" || flag == "rpcerror" {
+				add("C09/refused-push-succeeded", "%s has parameters that cannot be marshalled, yet it returned %q %s", name, flag, ret.Data)
 			}
 			continue
 		}
